@@ -170,6 +170,13 @@ def _run(ctx, pq):
     for vc, res in zip(vcases, L.run_dataset_jobs(ctx, check_verify, vcases, "v", lambda c: {"verify_case": c})):
         ctx.case({"verify": vc}, trivial=False)
         ctx.count("V.attribute", vc["attr"])
+    # ---- several colliding datasets in one process (stream P)
+    pcases = [gen_pair_case(rng, i) for i in range(12 if quick else 80)]
+    for pc, res in zip(pcases, L.run_dataset_jobs(ctx, check_pair, pcases, "p", lambda c: {"pair_case": c})):
+        ctx.case({"pair": pc}, trivial=res.get("trivial", False))
+        ctx.count("P.pair", pc["pair"])
+        for v in res.get("vias", []):
+            ctx.count("P.via", v)
     for case, res in zip(cases, results):
         ctx.case(case, trivial=(len(case["files"]) == 1 and case["root_mode"] == "inferred"))
         ctx.count("B.shape", case["shape"])
@@ -204,6 +211,10 @@ def gen_dataset_case(rng, confirm, i):
     off = 0
     levels = rng.choice([1, 2])
     ext = rng.choice([".parquet", ".parquet", ".parq"])
+    # directory and file NAMES are data: names of partition columns, partition values and files that start with '_' or '.',
+    # hold spaces, '%', non-ASCII letters must neither vanish from a listing nor change the rows
+    key0 = rng.choice(["k", "k", "k", "_grp", ".dot", "my col", "ü", "k%41"])
+    odd_file = rng.choice(["", "", "", "_", ".", "_tmp.", "%20"])
     for j in range(k):
         n = rng.choice([0, 1, 2, 3, 5, 8])
         if objbool:
@@ -211,12 +222,13 @@ def gen_dataset_case(rng, confirm, i):
         if shape == "flat":
             d = []
         elif shape == "hive":
-            d = ["k=%s" % rng.choice(["a", "b", "zz", "[x]", "a*b", "q?"]), "n=%d" % rng.choice([1, 2, 30])][:levels]   # values are data, not globs
+            d = ["%s=%s" % (key0, rng.choice(["a", "b", "zz", "[x]", "a*b", "q?", "_na", ".x", "a b", "100%", "é", "_"])),
+                 "n=%d" % rng.choice([1, 2, 30])][:levels]   # values are data, not globs
         elif shape == "drill":
-            d = [rng.choice(["a", "b", "zz", "[x]", "a*b"]), rng.choice(["u", "w"])][:levels]
+            d = [rng.choice(["a", "b", "zz", "[x]", "a*b", "_na", ".hid", "a b", "_", "é"]), rng.choice(["u", "w", "_w"])][:levels]
         else:
             d = ["sub%d" % j]
-        name = ("f%d%s%s" % (j, rng.choice(["", "", "[1]", "-x y"]), ext)) if shape != "subdatasets" else ""
+        name = ("%sf%d%s%s" % (odd_file if rng.random() < 0.6 else "", j, rng.choice(["", "", "[1]", "-x y"]), ext)) if shape != "subdatasets" else ""
         if cat_mode == "differ":
             cats = rng.sample(["p", "q", "r", "s", "t"], rng.choice([2, 3]))
         elif cat_mode == "same":
@@ -664,6 +676,93 @@ def check_verify(case, root, pq, ctx=None, verbose=False):
     return {"problems": problems, "trivial": False, "vias": ["verify:" + attr]}
 
 
+
+# -------------------------------------------------------------------------------------------------- stream P
+# SEVERAL datasets opened one after the other in ONE interpreter: what a dataset shows must not depend on which datasets were
+# opened before it.  The pairs collide on purpose: same relative paths, same partition column names, same row counts - but the
+# partition values are of different KINDS (text '1' / integer 1, text 'True' / boolean, text '0.5' / float, ISO text / timestamp),
+# recorded only in each dataset's own metadata.
+PAIR_VALUES = {"int": ["1", "2", "10"], "bool": ["True", "False"], "float": ["0.5", "2.0", "-1.25"],
+               "time": ["2020-01-01T00:00:00", "2021-06-01T12:30:00"]}
+
+
+def gen_pair_case(rng, i):
+    kind = ["int", "bool", "float", "time"][i % 4]
+    vals = PAIR_VALUES[kind]
+    n = rng.choice([4, 6, 9])
+    col = rng.choice(["p", "k", "_grp"])
+    return {"pair": kind, "col": col, "texts": [rng.choice(vals) for _ in range(n)], "rgo": rng.choice([None, 2, 3]),
+            "first": rng.choice(["text", "typed"]), "scheme": "hive"}
+
+
+def check_pair(case, root, pq, ctx=None, verbose=False):
+    import numpy as np
+    import pandas as pd
+    from fastparquet import write, ParquetFile, writer
+    kind, col, texts = case["pair"], case["col"], case["texts"]
+    n = len(texts)
+    typed = {"int": lambda t: int(t), "bool": lambda t: t == "True", "float": float, "time": pd.Timestamp}[kind]
+    frames = {"text": pd.DataFrame({col: np.array(texts + [None], dtype=object)[:-1], "id": np.arange(n, dtype="int64")}),
+              "typed": pd.DataFrame({col: pd.Series([typed(t) for t in texts]), "id": np.arange(n, dtype="int64")})}
+    roots = {k: os.path.join(root, k) for k in frames}
+    problems = []
+    for k, f in frames.items():
+        write(roots[k], f, file_scheme="hive", partition_on=[col], row_group_offsets=case["rgo"])
+    want = {k: [L.canon(v) for v in frames[k][col]] for k in frames}
+    rels = {k: [rg.columns[0].file_path for rg in ParquetFile(roots[k]).row_groups] for k in frames}
+    if rels["text"] != rels["typed"]:
+        return {"problems": [], "trivial": True, "vias": []}      # the layouts do not collide: nothing to learn
+    order = [case["first"], "typed" if case["first"] == "text" else "text"]
+    vias = []
+
+    def look(k, via, fn):
+        try:
+            pf = fn()
+            out = pf.to_pandas()
+            got = {int(r): L.canon(v) for r, v in zip(out["id"], out[col])}
+            cats = sorted(json.dumps(L.canon(v)) for v in pf.cats.get(col, []))
+        except Exception as e:      # noqa
+            problems.append("%s of the %s dataset (opened after %s) raised %s: %s" % (via, k, [x for x in order if x != k][0], type(e).__name__, str(e)[:150]))
+            return
+        exp = {r: want[k][r] for r in (range(n) if via != "list" else sorted(got))}      # "list" opens the first two files only
+        if got != exp or not got:
+            bad = [r for r in exp if got.get(r) != exp[r]][:3]
+            problems.append("%s: the %s dataset shows %s = %r, written %r (its twin with the same layout was opened before or after it in this process)"
+                            % (via, k, col, [got.get(r) for r in bad], [exp[r] for r in bad]))
+        elif cats != sorted({json.dumps(c) for c in exp.values()}):
+            problems.append("%s: ParquetFile.cats[%r] of the %s dataset = %s" % (via, col, k, cats[:6]))
+
+    for rnd in (order, order[::-1]):
+        for via in ("directory", "list", "list-of-3+"):
+            for k in rnd:
+                files = [os.path.join(roots[k], r) for r in rels[k]]
+                if via == "directory":
+                    look(k, via, lambda: ParquetFile(roots[k]))
+                elif via == "list":
+                    look(k, via, lambda: ParquetFile(files[:2], root=roots[k]))
+                    continue
+                elif len(files) >= 3:
+                    look(k, via, lambda: ParquetFile(files, root=roots[k]))
+            vias.append("pair:" + via)
+    # without the summary files (listing + merge machinery), then merged again
+    for k in order:
+        for junk in ("_metadata", "_common_metadata"):
+            os.unlink(os.path.join(roots[k], junk))
+    for rnd in (order[::-1], order):
+        for k in rnd:
+            look(k, "directory without _metadata", lambda: ParquetFile(roots[k]))
+    for k in order:
+        files = [os.path.join(roots[k], r) for r in rels[k]]
+        look(k, "merge", lambda: (writer.merge(files, root=roots[k]), ParquetFile(roots[k]))[1])
+    vias += ["pair:directory without _metadata", "pair:merge"]
+    if problems and ctx is not None:
+        ctx.fail({"component": "several datasets in one process", "pair": kind, "stage": "values"}, {"pair_case": case}, "; ".join(problems[:4]))
+    if verbose:
+        for p in problems[:10]:
+            print("PROBLEM:", p)
+    return {"problems": problems, "trivial": False, "vias": vias}
+
+
 def _replayable(case):
     return {k: case.get(k) for k in ("shape", "files", "root_mode", "cat_mode", "verify", "bad_schema", "dup", "relative", "junk", "dir_slash", "colperm")}
 
@@ -682,6 +781,18 @@ def replay(rep):
         tmp = tempfile.mkdtemp(prefix="verif-C14-replay-", dir="/tmp")
         try:
             out = C.pmap(lambda c: check_verify(c, os.path.join(tmp, "v"), None, None, verbose=True)["problems"], [case["verify_case"]], nproc=1, job_timeout=300)[0]
+            bad = bool(out) or (isinstance(out, dict) and "__crashed__" in out)
+            print("PROPERTY FAILS" if bad else "property holds on this input", out if isinstance(out, dict) else "")
+            return 1 if bad else 0
+        finally:
+            shutil.rmtree(tmp, ignore_errors=True)
+    if "pair_case" in case:
+        tmp = tempfile.mkdtemp(prefix="verif-C14-replay-", dir="/tmp")
+        try:
+            print(json.dumps(case["pair_case"], indent=1))
+            print("two hive datasets with the same relative paths, partitioned on %r: values as text / as %s; opened one after the other in one process"
+                  % (case["pair_case"]["col"], case["pair_case"]["pair"]))
+            out = C.pmap(lambda c: check_pair(c, os.path.join(tmp, "p"), None, None, verbose=True)["problems"], [case["pair_case"]], nproc=1, job_timeout=300)[0]
             bad = bool(out) or (isinstance(out, dict) and "__crashed__" in out)
             print("PROPERTY FAILS" if bad else "property holds on this input", out if isinstance(out, dict) else "")
             return 1 if bad else 0
